@@ -50,6 +50,12 @@ impl Koto {
         }
     }
 
+    /// Returns a reference to the runtime's VM, for read-only inspection by verification tooling
+    #[cfg(feature = "koto_verif")]
+    pub fn verif_vm(&self) -> &KotoVm {
+        &self.runtime
+    }
+
     /// Returns a reference to the runtime's prelude
     pub fn prelude(&self) -> &KMap {
         self.runtime.prelude()
